@@ -642,6 +642,9 @@ func setNthValue(ctx context.Context, scope *ReferenceScope, partition Partition
 				break
 			}
 		}
+		if count < n {
+			val = value.NewNull()
+		}
 
 		for _, idx := range frame.Records {
 			list[idx] = val
